@@ -102,6 +102,7 @@ func runC16(c c16Case) *vlib.Outcome {
 	current := map[string]*c16Gen{}
 	var blocked []c16Span // suspended or paused spans
 	var suspendedSince *time.Time
+	var busyUntil time.Time // the loop is busy with queued pauses until then
 	remBeforeDue, replaced := false, false
 
 	invariant := func(when string) {
@@ -191,14 +192,24 @@ func runC16(c c16Case) *vlib.Outcome {
 			cr.Resume(ctx)
 			time.Sleep(time.Microsecond)
 			if suspendedSince != nil {
-				blocked = append(blocked, c16Span{*suspendedSince, time.Now()})
+				// the command is taken once queued pauses are over
+				until := time.Now()
+				if busyUntil.After(until) {
+					until = busyUntil
+				}
+				blocked = append(blocked, c16Span{*suspendedSince, until.Add(time.Millisecond)})
 				suspendedSince = nil
 			}
 		case "pause":
 			cr.Pause(ctx)
 			// the loop sleeps PauseDuration from when it takes the
-			// command (it may still be finishing an earlier pause)
-			blocked = append(blocked, c16Span{now, now.Add(2*c16Pause + time.Millisecond)})
+			// command; commands queue up behind earlier pauses
+			start := now
+			if busyUntil.After(start) {
+				start = busyUntil
+			}
+			busyUntil = start.Add(c16Pause)
+			blocked = append(blocked, c16Span{now, busyUntil.Add(time.Millisecond)})
 			time.Sleep(time.Microsecond)
 		}
 		invariant(when)
@@ -210,7 +221,14 @@ func runC16(c c16Case) *vlib.Outcome {
 	if suspendedSince != nil {
 		cr.Resume(ctx)
 		time.Sleep(time.Microsecond)
-		blocked = append(blocked, c16Span{*suspendedSince, time.Now()})
+		until := time.Now()
+		if busyUntil.After(until) {
+			until = busyUntil
+		}
+		blocked = append(blocked, c16Span{*suspendedSince, until.Add(time.Millisecond)})
+	}
+	if d := busyUntil.Sub(time.Now()); d > 0 {
+		time.Sleep(d)
 	}
 	time.Sleep(6 * time.Second)
 	end := time.Now()
